@@ -1,121 +1,27 @@
 import ScVerif.C20.Meter
+import ScVerif.C20.Gau
 /-!
-# C20 / Meter — interleaving model of concurrent `RecordReading` / `Reset` calls
+# C20 / Meter — concurrent `RecordReading` / `Reset` as calls of the generic `GetAndUpdate` model
 
-Every write of the meter model goes through `resource.Value.Set` = `GetAndUpdate`
-(`pkg/resource/atomic.go`): read the stored value under `RLock` (atomic step `readOld`), run the
-change function on a clone outside any lock, take the write lock and **commit only if the stored value
-is still `proto.Equal` to the one that was read** (atomic step `commit`; otherwise `Aborted`).
-
-The two calls differ in *where the clock is read* (`pkg/trait/meterpb/model.go`):
-
-* `RecordReading` reads `Clock().Now()` inside its `InterceptBefore`, i.e. inside the change function,
-  after the stored value was read (shape `early = false`: `readOld ▸ readClock ▸ … ▸ commit`);
-* `Reset` reads the clock before it calls `Set` (shape `early = true`: `readClock ▸ readOld ▸ … ▸ commit`).
-
-The clock is a counter that never goes back (`tick d`, `d : Nat`); between any two atomic steps any
-other thread may run and any amount of time may pass.  A thread is a list of calls (a program); a
-schedule is a list of events.  The atomic steps are exactly the segments between the park points the
-harness uses on the real code (`gau.afterRead`, the injected clock's `Now`, `gau.beforeLock`).
+`pkg/trait/meterpb/model.go`: `RecordReading` reads `Clock().Now()` inside its `InterceptBefore`, i.e.
+inside the change function, after the stored value was read (`early = false`); `Reset` reads the clock
+before it calls `Set` (`early = true`).  Neither has a check that can fail.
 -/
 namespace ScVerif.C20.Meter
 
-inductive Effect where
-  | record (v : String)
-  | reset
-  deriving DecidableEq
+abbrev MCall := Gau.Call Reading Unit
+abbrev MThread := Gau.Thread Reading Unit
+abbrev MCfg := Gau.Cfg Reading Unit
 
-/-- a call = what it writes + where it reads the clock -/
-structure Call where
-  eff : Effect
-  early : Bool
-  deriving DecidableEq
+/-- `Model.RecordReading(v)` as written in /repo -/
+def recordCall (v : String) : MCall := ⟨false, fun _ => none, fun o t => recordReading o v t⟩
+/-- `Model.Reset()` as written in /repo -/
+def resetCall : MCall := ⟨true, fun _ => none, fun o t => reset o t⟩
+/-- NOT in /repo: a `RecordReading` that takes its timestamp before `Set` ("same shape as Reset") -/
+def earlyRecordCall (v : String) : MCall := ⟨true, fun _ => none, fun o t => recordReading o v t⟩
 
-/-- `Model.RecordReading(v)` as written in /repo: clock read inside the change function -/
-def Call.recordReading (v : String) : Call := ⟨.record v, false⟩
-/-- `Model.Reset()` as written in /repo: clock read before `Set` -/
-def Call.resetCall : Call := ⟨.reset, true⟩
-
-/-- the value the change function computes from the value it read (`old`) and its clock reading -/
-def Effect.apply (e : Effect) (old : Reading) (t : Int) : Reading :=
-  match e with
-  | .record v => Meter.recordReading old v t
-  | .reset => Meter.reset old t
-
-/-- the sequential op a committed call amounts to -/
-def Effect.op (e : Effect) (t : Int) : Op :=
-  match e with
-  | .record v => .record v t
-  | .reset => .reset t
-
-/-- progress of one call through `Set`/`GetAndUpdate` -/
-inductive Phase where
-  | start                               -- nothing read yet
-  | haveOld (o : Reading)               -- late-clock shape: old value read, change function entered
-  | haveT (t : Int)                     -- early-clock shape: clock read, `Set` not yet entered
-  | both (o : Reading) (t : Int)        -- old value and clock read, change function still running
-  | ready (o : Reading) (t : Int)       -- change function done, about to take the write lock
-  deriving DecidableEq
-
-inductive Res where
-  | ok (r : Reading)
-  | aborted
-  deriving DecidableEq
-
-structure Thread where
-  cur : Option (Call × Phase)
-  todo : List Call
-  results : List Res          -- most recent first
-
-def Thread.ofCalls (cs : List Call) : Thread := ⟨none, cs, []⟩
-
-/-- one atomic step of a call in phase `p`; `none` in the third component = the call goes on -/
-def callStep (store : Reading) (now : Int) (c : Call) : Phase → Reading × Phase × Option Res
-  | .start => if c.early then (store, .haveT now, none) else (store, .haveOld store, none)
-  | .haveOld o => (store, .both o now, none)
-  | .haveT t => (store, .both store t, none)
-  | .both o t => (store, .ready o t, none)
-  | .ready o t =>
-    -- under the write lock: `if !proto.Equal(oldValue, oldValueAgain) → Aborted`, else save(newValue)
-    if store = o then (c.eff.apply o t, .start, some (.ok (c.eff.apply o t)))
-    else (store, .start, some .aborted)
-
-/-- one atomic step of a thread: continue the current call, or start the next one of its program -/
-def threadStep (store : Reading) (now : Int) (th : Thread) : Reading × Thread :=
-  let go (c : Call) (p : Phase) (todo : List Call) : Reading × Thread :=
-    match callStep store now c p with
-    | (s', p', none) => (s', ⟨some (c, p'), todo, th.results⟩)
-    | (s', _, some r) => (s', ⟨none, todo, r :: th.results⟩)
-  match th.cur, th.todo with
-  | some (c, p), todo => go c p todo
-  | none, c :: rest => go c .start rest
-  | none, [] => (store, th)
-
-structure Cfg where
-  store : Reading
-  now : Int
-  threads : List Thread
-
-inductive Ev where
-  | step (i : Nat)      -- thread i takes its next atomic step (nothing happens if it has none)
-  | tick (d : Nat)      -- the clock advances by d ≥ 0
-
-def Cfg.step (c : Cfg) : Ev → Cfg
-  | .tick d => { c with now := c.now + d }
-  | .step i =>
-    match c.threads[i]? with
-    | none => c
-    | some th =>
-      let (s', th') := threadStep c.store c.now th
-      { c with store := s', threads := c.threads.set i th' }
-
-def Cfg.run (c : Cfg) (sched : List Ev) : Cfg := sched.foldl Cfg.step c
-
-/-- the schedule that lets every thread, in index order, finish its program (4 steps per call) -/
-def drainSched (ths : List Thread) : List Ev :=
-  (List.range ths.length).flatMap (fun i =>
-    match ths[i]? with
-    | none => []
-    | some th => List.replicate (4 * (th.todo.length + 1)) (Ev.step i))
+/-- a program of the real model's calls: `some v` = `RecordReading(v)`, `none` = `Reset()` -/
+def codeCalls (prog : List (Option String)) : List MCall :=
+  prog.map (fun o => match o with | some v => recordCall v | none => resetCall)
 
 end ScVerif.C20.Meter
